@@ -256,6 +256,7 @@ func c08GenConfig(f smodel.Format) smodel.GenConfig {
 	cfg := smodel.DefaultGenConfig(f)
 	cfg.ConstraintBias = true
 	cfg.NoAny = true
+	cfg.TypeLists = true
 	cfg.Focus = []string{"string_bounded", "int_bounded", "float_bounded", "array_struct", "map_struct", "array_ref", "map_ref", "anon_struct", "union_structs", "array_union_structs", "nullable_ref", "array_scalar", "map_scalar"}
 	return cfg
 }
